@@ -22,6 +22,9 @@ type Case struct {
 	A       []string `json:"a"`
 	B       []string `json:"b"`
 	Variant int      `json:"variant"` // 0: third row holds NULLs where allowed; 1: no NULLs at all
+	// NoTx: the changes are applied outside a transaction (what `--tx-mode none` does); foreign-key
+	// enforcement then stays on unless the plan itself switches it off around a table rebuild.
+	NoTx bool `json:"no_tx,omitempty"`
 }
 
 func stateOf(names []string) squ.State {
@@ -42,7 +45,7 @@ var indent = func(o *migrate.PlanOptions) { o.Indent = "  " }
 func populate(ctx context.Context, e *sqliteh.Engine, A *squ.DB, variant int) error {
 	stmts := []string{"PRAGMA foreign_keys = off",
 		"INSERT INTO p (id, k) VALUES (1, 1), (2, 2), (3, 3)",
-		"INSERT INTO u (id, v) VALUES (1, 'u1'), (2, NULL), (3, 'u''3')",
+		"INSERT INTO u (id, v, t_id) VALUES (1, 'u1', 1), (2, NULL, 2), (3, 'u''3', NULL)",
 	}
 	t := A.Table("t")
 	for row := 1; row <= 3; row++ {
@@ -261,27 +264,38 @@ func Eval(ctx context.Context, c Case) (res Result) {
 				}
 			}
 		}
-		tx, err := e.Atlas.Tx(ctx, nil)
-		if err != nil {
-			bad("harness: begin: %v", err)
-			return
-		}
-		if err := tx.ApplyChanges(ctx, changes, indent); err != nil {
-			tx.Rollback()
-			if len(unsat) > 0 {
-				res.Expected = fmt.Sprintf("%v: %v", unsat, err)
+		if c.NoTx {
+			if err := e.Atlas.ApplyChanges(ctx, changes, indent); err != nil {
+				if len(unsat) > 0 {
+					res.Expected = fmt.Sprintf("%v: %v", unsat, err)
+					return
+				}
+				bad("the plan fails (outside a transaction) on data the desired schema admits: %v\n  plan: %s", err, strings.Join(res.Stmts, ";\n        "))
 				return
 			}
-			bad("the plan fails on data the desired schema admits: %v\n  plan: %s", err, strings.Join(res.Stmts, ";\n        "))
-			return
-		}
-		if err := tx.Commit(); err != nil {
-			if len(unsat) > 0 {
-				res.Expected = fmt.Sprintf("%v: %v", unsat, err)
+		} else {
+			tx, err := e.Atlas.Tx(ctx, nil)
+			if err != nil {
+				bad("harness: begin: %v", err)
 				return
 			}
-			bad("commit fails on data the desired schema admits: %v", err)
-			return
+			if err := tx.ApplyChanges(ctx, changes, indent); err != nil {
+				tx.Rollback()
+				if len(unsat) > 0 {
+					res.Expected = fmt.Sprintf("%v: %v", unsat, err)
+					return
+				}
+				bad("the plan fails on data the desired schema admits: %v\n  plan: %s", err, strings.Join(res.Stmts, ";\n        "))
+				return
+			}
+			if err := tx.Commit(); err != nil {
+				if len(unsat) > 0 {
+					res.Expected = fmt.Sprintf("%v: %v", unsat, err)
+					return
+				}
+				bad("commit fails on data the desired schema admits: %v", err)
+				return
+			}
 		}
 	}
 	after, err := snap(ctx, e)
@@ -334,8 +348,9 @@ func pairs(tier string) []Case {
 			return
 		}
 		for v := 0; v < 2; v++ {
-			cs = append(cs, Case{a.Names(), b.Names(), v})
+			cs = append(cs, Case{a.Names(), b.Names(), v, false})
 		}
+		cs = append(cs, Case{a.Names(), b.Names(), 1, true})
 	}
 	for _, a := range u1 {
 		for _, b := range u1 {
@@ -349,7 +364,7 @@ func pairs(tier string) []Case {
 				if len(a) <= 1 && len(b) <= 1 {
 					continue
 				}
-				cs = append(cs, Case{a.Names(), b.Names(), (len(a)*3 + len(b)) % 2})
+				cs = append(cs, Case{a.Names(), b.Names(), (len(a)*3 + len(b)) % 2, (len(a)+len(b))%2 == 0})
 			}
 		}
 		return cs
@@ -360,15 +375,17 @@ func pairs(tier string) []Case {
 		}
 		for i := 0; i < 2; i++ {
 			sub := squ.State{s[i]}
-			cs = append(cs, Case{s.Names(), sub.Names(), 0}, Case{sub.Names(), s.Names(), 0})
+			cs = append(cs, Case{s.Names(), sub.Names(), 0, false}, Case{sub.Names(), s.Names(), 0, true})
 		}
+		// and against the bare skeleton: plans that change two things at once.
+		cs = append(cs, Case{nil, s.Names(), 1, true}, Case{s.Names(), nil, 1, false})
 	}
 	return cs
 }
 
 func Run(r *report.Run) {
 	ctx := context.Background()
-	r.Rule = "pairs (A,B) of the SQLite schema universe (quick: all pairs of <=1-feature states plus each 2-feature state against its 1-feature sub-states; thorough: all pairs of <=2-feature states), A created by our DDL and populated with 3 rows per table (2 data variants: third row holds NULL wherever A allows / no NULLs), then the `schema apply` flow towards B; rows read before/after by our own connection with quote(); non-trivial = pair with a non-empty plan that was applied; distinct = (A,B,variant)"
+	r.Rule = "pairs (A,B) of the SQLite schema universe (quick: all pairs of <=1-feature states plus each 2-feature state against its 1-feature sub-states and against the bare skeleton; thorough: all pairs of <=2-feature states), A created by our DDL and populated with 3 rows per table (2 data variants: third row holds NULL wherever A allows / no NULLs), then the `schema apply` flow towards B, inside a transaction and (one data variant) outside one, as --tx-mode none does; the bystander table u holds child rows of t (ON DELETE CASCADE); rows read before/after by our own connection with quote(); non-trivial = pair with a non-empty plan that was applied; distinct = (A,B,variant)"
 	r.Assumptions = []string{
 		"a plan may fail only if the desired schema cannot hold the data (NOT NULL without default over a NULL or as a new column); such expected failures are counted separately",
 		"a value is compared when the column exists before and after with the same declared type and is not generated; NULL under a new NOT NULL DEFAULT x is expected to become x",
